@@ -492,10 +492,12 @@ class Dict(dict, base.Symbolic, pg_typing.CustomTyping):
 
   def sym_hash(self) -> int:
     """Symbolic hashing."""
+    # Key order does not matter for `sym_eq`, thus it does not matter here.
     return base.sym_hash(
         (self.__class__,
-         tuple([(k, base.sym_hash(v)) for k, v in self.sym_items()
-                if v != pg_typing.MISSING_VALUE])))
+         tuple([(k, base.sym_hash(self.sym_getattr(k)))
+                for k in base.sorted_dict_keys(self)
+                if self.sym_getattr(k) != pg_typing.MISSING_VALUE])))
 
   def _sym_getattr(  # pytype: disable=signature-mismatch  # overriding-parameter-type-checks
       self, key: Union[str, int]) -> Any:
